@@ -1218,29 +1218,22 @@ Proof.
   rewrite Eb. cbn [bind]. eauto.
 Qed.
 
-Lemma find_bank_in : forall banks letter acc b,
-  find_bank banks letter acc = Some b -> In b banks \/ acc = Some b.
+Lemma dump_bank_list_total vals bs : (forall b, In b bs -> bank_dumpable vals b) ->
+  exists t, dump_bank_list vals bs = Ok t.
 Proof.
-  induction banks as [|b0 r IH]; intros letter acc b H; cbn [find_bank] in H.
-  - right. exact H.
-  - apply IH in H. destruct H as [H|H]; [left; right; exact H|].
-    destruct (String.eqb (bank_letter b0) letter).
-    + injection H as ->. left. left. reflexivity.
-    + right. exact H.
+  induction bs as [|b r IH]; intros H; cbn [dump_bank_list]; [eauto|].
+  destruct (dump_bank_total vals b (H b (or_introl eq_refl))) as (t & Et). rewrite Et. cbn [bind].
+  destruct IH as (rest & Er); [intros b0 Hb0; apply H; right; exact Hb0|].
+  rewrite Er. cbn [bind]. eauto.
 Qed.
 
 Lemma dump_banks_in_total vals banks : (forall b, In b banks -> bank_dumpable vals b) ->
   forall letters, exists t, dump_banks_in vals banks letters = Ok t.
 Proof.
   intros H. induction letters as [|l r IH]; cbn [dump_banks_in]; [eauto|].
-  assert (H1 : exists t, match find_bank banks l None with
-                         | Some b => dump_bank vals b
-                         | None => Ok ""
-                         end = Ok t).
-  { destruct (find_bank banks l None) as [b|] eqn:E; [|eauto].
-    apply find_bank_in in E. destruct E as [E|E]; [|discriminate E].
-    apply dump_bank_total, H, E. }
-  destruct H1 as (t & Et). rewrite Et. cbn [bind].
+  destruct (dump_bank_list_total vals (banks_with banks l)) as (t & Et).
+  { intros b Hb. apply H. unfold banks_with in Hb. apply filter_In in Hb. exact (proj1 Hb). }
+  rewrite Et. cbn [bind].
   destruct IH as (rest & Er). rewrite Er. cbn [bind]. eauto.
 Qed.
 
